@@ -73,18 +73,19 @@ var (
 // flags) answers every Read with everything that is left and then (0, io.EOF).
 //
 //	cuts  bit i  : a chunk ends after byte i+1 (the next Read starts a new chunk there)
-//	zeros bit j  : one (0, nil) answer before the Read that starts at offset j (j = len(data):
-//	               before the final (0, io.EOF))
+//	zeros bit j  : one (0, nil) answer before the Read that starts at offset j < len(data)
+//	zeroTail     : one (0, nil) answer before the final (0, io.EOF)
 //	eofWith      : the Read delivering the last byte returns io.EOF together with the data
 //	failAt       : the failAt-th Read call returns (0, errRead) instead
 //
 // A Read never returns more than len(p): the rest of the chunk is kept for the next call.
 type sreader struct {
-	data    []byte
-	cuts    uint64
-	zeros   uint64
-	eofWith bool
-	failAt  int
+	data     []byte
+	cuts     uint64
+	zeros    uint64
+	eofWith  bool
+	zeroTail bool
+	failAt   int
 
 	pos, calls, zdone int
 	firstN            int
@@ -108,12 +109,16 @@ func (s *sreader) read(p []byte) (n int, err error) {
 	if s.calls == s.failAt {
 		return 0, errRead
 	}
-	if s.pos < 64 && s.zeros>>uint(s.pos)&1 == 1 && s.zdone != s.pos {
+	if s.pos >= len(s.data) {
+		if s.zeroTail && s.zdone != s.pos {
+			s.zdone = s.pos
+			return 0, nil
+		}
+		return 0, io.EOF
+	}
+	if s.zeros>>uint(s.pos)&1 == 1 && s.zdone != s.pos {
 		s.zdone = s.pos
 		return 0, nil
-	}
-	if s.pos >= len(s.data) {
-		return 0, io.EOF
 	}
 	end := len(s.data)
 	if rest := s.cuts >> uint(s.pos); rest != 0 {
